@@ -446,7 +446,7 @@ def rewrite_derive(attr_text):
 # directive parsing
 
 SECTION_KW = ("ret", "requires", "ensures", "decreases", "recommends", "entry", "loop", "before", "after",
-              "subst", "sigsubst", "attr", "name", "opens", "noprove", "unwind", "mono", "selftype", "ord")
+              "subst", "sigsubst", "attr", "name", "opens", "noprove", "unwind", "mono", "selftype", "ord", "header")
 
 
 class FnDirective:
@@ -700,6 +700,10 @@ def splice_body(body, d, em, target):
     if entries:
         text = "\n".join(t for (_, t) in entries)
         body = "{\n    proof { " + text.strip() + " }" + body[1:]
+        em.rules.add("E5")
+    headers = d.get("header")
+    if headers:
+        body = "{\n    " + " ".join(t.strip() for (_, t) in headers) + body[1:]
         em.rules.add("E5")
     return body
 
